@@ -11,6 +11,7 @@ O: Go-side oracle independent of the engine: documented precedence (Import() of 
 All files are loaded into ONE engine, so leaks between groups, files or through the engine-wide FQN cache would show.
 """
 import json
+import os
 import re
 
 F_UNKNOWN = "type-pattern-unknown-name-accepted"
@@ -57,8 +58,17 @@ def eval_source(o):
         "Print RES."])
 
 
+def parse_gen_scope(text, name):
+    """`Definition <name> : list (string * string) := [ ("a", "b"); ... ].` of a generated file -> dict (None: not found)."""
+    m = re.search(r"Definition %s\b[^=]*:=\s*\[(.*?)\]\." % name, text, re.S)
+    if not m:
+        return None
+    return dict(re.findall(r'\("([^"]*)",\s*"([^"]*)"\)', m.group(1)))
+
+
 def run(c):
     thorough = c.tier == "thorough"
+    c.go2coq_sources = ["c20.go"]
     c.rule = ("rules files with 1..3 groups; each group has 0..3 Import() calls out of packages whose base names collide with each "
               "other and with the stdlib (example.com/io, a/foo, b/foo, html/template, c20/lib also present as a vendored copy), "
               "may be skipped by GroupFilter, and has 1..3 rules with a qualified name in Type.Is / Underlying().Is / Implements "
@@ -79,10 +89,25 @@ def run(c):
         "every file is also loaded through VerifConvertAST + LoadFromIR into a second engine and must behave the same",
         "vendored copies are covered for Type.Is (path stripped at match time) and Implements/HasMethod (method sets)",
     ]
+    c.trusted += [
+        "go2coq c20tables: reads the creators / mutators / lookup sites of the import table, the holders of parsed patterns, and "
+        "the PathByName / PackagesList literals of the stdinfo module version that /repo/go.mod selects (`go list -m`)",
+        "stdinfo's import frequencies as the meaning of 'the more common package' (documented in stdinfo.go)",
+    ]
     c.build_theories()
-    c.require_theories("Types/ImportsTab.v")
+    c.require_theories("Types/ImportsTab.v", "Types/StdTab.v")
+    # ---- P over regenerated code and tables: the base table, where it changes, the stdlib defaults themselves
     c.install_tmpl("C20/C20.v")
     c.coq_compile(["C20.v"])
+    gen_std = None
+    if c.go2coq("c20tables", "Gen_C20.v"):
+        try:
+            gen_std = parse_gen_scope(open(os.path.join(c.gen, "Gen_C20.v")).read(), "gen_path_by_name")
+        except OSError:
+            gen_std = None
+        if c.coq_compile(["Gen_C20.v"]):
+            c.install_tmpl("C20/Inst_C20.v", "C20/C20Std.v")
+            c.coq_compile(["Inst_C20.v", "C20Std.v"])
     hb = c.build_harness("c20")
     if hb is None:
         return c.finish()
@@ -121,6 +146,62 @@ def run(c):
                 model = None
         if o.get("run_panic"):
             c.fail("oracle", "Run panics / fails on the probe file", input={"seed": o["seed"]}, observed=o["run_panic"], expected="reports")
+        # ---- the standard-library default table recovered from the engine's behaviour, for EVERY base name
+        sw = o.get("std_sweep")
+        if sw is None:
+            c.obligation("std-sweep:" + tag, False, "the harness did not run the std sweep")
+        else:
+            doc_table = o.get("std_table") or {}
+            if gen_std is not None and gen_std != doc_table:
+                diff = sorted(set(gen_std.items()) ^ set(doc_table.items()))[:6]
+                c.obligation("std-table:regenerated=linked:" + tag, False,
+                             "the PathByName literal read by go2coq differs from the map linked into the harness: %s" % diff)
+            if sw.get("run_panic"):
+                c.fail("oracle", "Run panics / fails on the std sweep file", input={"rules": sw["rules"][:600]}, observed=sw["run_panic"],
+                       expected="reports")
+            if sw.get("load_err"):
+                c.fail("oracle", "a group without Import() calls that names one type of every std package the default table binds does "
+                       "not load", input={"rules": sw["rules"]}, observed=sw["load_err"], expected="loads")
+            engine_tab = {}
+            for sn in sw["names"]:
+                c.evaluations += 1
+                name, doc, rep = sn["name"], sn["documented"], sn["reported"]
+                inp = {"rule": sn["rule"], "group_imports": [], "probes": ["a value of type %s.VerifT" % p for p in sn["candidates"]]}
+                if len(sn["candidates"]) > 2 or not doc:
+                    c.nontrivial.add(("std-default", name))
+                if doc:
+                    if sw.get("load_err"):
+                        continue
+                    if rep != [doc]:
+                        c.fail("oracle", "`%s.T` in a group without Import() calls does not mean the documented standard-library "
+                               "package %s" % (name, doc), input=inp, expected=[doc], observed=rep)
+                    if len(rep) == 1:
+                        engine_tab[name] = rep[0]
+                    ir = (sw.get("reported_ir") or {}).get(name, [])
+                    if not sw.get("load_err_ir") and ir != rep:
+                        c.fail("oracle", "`%s.T` means another package when the file is loaded through LoadFromIR" % name, input=inp,
+                               expected=rep, observed=ir)
+                else:
+                    # a rarely imported std package that the documented table leaves out: a load error (what the engine does), or
+                    # -- "the standard-library package with that name" -- the one std package so named; nothing else
+                    if not sn["load_err"]:
+                        if len(sn["std_paths"]) != 1 or rep != sn["std_paths"]:
+                            c.fail("oracle", "`%s.T`: the default table does not bind %s and the group has no Import(), yet the file "
+                                   "loads and the name does not mean the one std package so named" % (name, name), input=inp,
+                                   expected="load error (or %s)" % sn["std_paths"], observed="loads; reports %s" % rep)
+                    elif sn["load_err"].startswith("PANIC"):
+                        c.fail("oracle", "Load panics", input=inp, observed=sn["load_err"], expected="a load error")
+            if sw.get("load_err_ir"):
+                c.fail("oracle", "Load and LoadFromIR disagree on the std sweep file", input={"rules": sw["rules"][:600]},
+                       expected="loads", observed=sw["load_err_ir"])
+            # K: the table Coq reasons about (the regenerated literal = the linked map, checked above) is the table the engine
+            # behaves by: any difference has been reported above with the rule as failing input
+            if gen_std is not None:
+                c.coverage["std_table_entries_regenerated"] = len(gen_std)
+                c.coverage["std_table_entries_recovered_from_engine"] = len(engine_tab)
+            c.coverage["std_names_swept"] = len(sw["names"])
+            c.coverage["std_names_bound"] = sum(1 for sn in sw["names"] if sn["documented"])
+            c.coverage["std_names_ambiguous"] = sum(1 for sn in sw["names"] if len(sn["candidates"]) > 2)
         table = o["table"]
         for k, sc in enumerate(o["scenarios"]):
             c.evaluations += 1
